@@ -18,9 +18,17 @@ import Sbepp.Spec.Observe
 namespace Sbepp.Spec.Events
 open Sbepp Sbepp.Schema Sbepp.Observe
 
-/-- numeric value of an enum valid value (`char` encodings use the character code) -/
-def validValueNum (isChar : Bool) (v : String) : Option Nat :=
-  if isChar then v.toList.head?.map Char.toNat else v.toNat?
+/-- the raw (unsigned) wire value of an enum valid value: `char` encodings use the character code, a negative
+    number of a signed encoding is its two's-complement representation in the encoding's width -/
+def validValueNum (prim : String) (v : String) : Option Nat :=
+  if prim = "char" then v.toList.head?.map Char.toNat
+  else match v.toInt? with
+    | some (.ofNat n) => some n
+    | some (.negSucc n) =>
+      match primSize? prim with
+      | some w => if n + 1 ≤ 2 ^ (8 * w) then some (2 ^ (8 * w) - (n + 1)) else none
+      | none => none
+    | none => none
 
 /-- follow refs to the encoding itself -/
 def derefElem (types : List Elem) : Nat → Elem → Elem
@@ -47,7 +55,7 @@ def elemAt (types : List Elem) : Elem → List String → Option Elem
 def enumSuffix (e : Elem) (prim : String) (v : Nat) : String :=
   match e with
   | .enum _ _ _ values _ =>
-    match values.find? (fun x => validValueNum (prim = "char") x.value = some v) with
+    match values.find? (fun x => validValueNum prim x.value = some v) with
     | some x => "/" ++ x.name
     | none => "/unknown"
   | _ => "/?"
